@@ -764,6 +764,32 @@ func c14R7(c *Ctx) {
 		})
 		c.check(hit == nil, "handshake/success=>confirmed", c.ipos(sc[0]), "after the config went out every path marks the handshake confirmed", "a handshake that completed can still be flushed as 'not confirmed'", c.pathStr(path)...)
 	}
+	// the relay's own tmux constraints are applied AFTER the server's config was decoded (a value set before the decode is
+	// overwritten by whatever the server — or an inner relay, which re-marshals every key — sent)
+	rcf := c.fn("TrzszRelay.recvConfig")
+	rcCalls := callsIn(h, idIs("(*trzsz.TrzszRelay).recvConfig"))
+	umc := callsIn(rcf, idIs("encoding/json.Unmarshal"))
+	for _, fld := range []string{"TmuxOutputJunk", "TmuxPaneColumns"} {
+		after := false
+		for _, fn := range []*ssa.Function{h, rcf} {
+			eachInstr(fn, func(in ssa.Instruction) {
+				st, ok := in.(*ssa.Store)
+				if !ok {
+					return
+				}
+				if n, _ := fieldAddrName(st.Addr); !strings.HasSuffix(n, "."+fld) {
+					return
+				}
+				if fn == h && len(rcCalls) == 1 && domI(rcCalls[0].(ssa.Instruction), st) {
+					after = true
+				}
+				if fn == rcf && len(umc) == 1 && domI(umc[0].(ssa.Instruction), st) {
+					after = true
+				}
+			})
+		}
+		c.check(after, "handshake/"+fld+"-applied-after-decode", c.pos(h.Pos()), "the relay's "+fld+" constraint is written after the server's config was decoded", "the relay's "+fld+" constraint is not applied after the decode: an explicit value in the incoming config (every inner relay sends one) overrides it")
+	}
 	// the tmux junk flag
 	eachInstr(h, func(in ssa.Instruction) {
 		st, ok := in.(*ssa.Store)
